@@ -28,6 +28,18 @@ InterleaveOK == LET I == Interleave(call.sets, 1, 1) IN
     /\ Len(I) = LET RECURSIVE T(_) T(k) == IF k = 0 THEN 0 ELSE Len(call.sets[k]) + T(k - 1) IN T(Len(call.sets))
     /\ \A k \in DOMAIN call.sets : \A a, b \in DOMAIN call.sets[k] : a < b =>
           \E i, j \in DOMAIN I : i < j /\ I[i] = call.sets[k][a] /\ I[j] = call.sets[k][b]
+\* the code's interleave key: locus `row` of set `k` (0-based) gets idx = row * (number of sets) + k and the table is sorted by
+\* idx -- that order is exactly the round-robin Interleave (design-level check of io._interleave_loci)
+RECURSIVE RRPairs(_, _, _)
+RRPairs(F, row, k) == IF row > MaxLen(F) THEN <<>> ELSE IF k > Len(F) THEN RRPairs(F, row + 1, 1)
+                      ELSE (IF row <= Len(F[k]) THEN << <<k, row>> >> ELSE <<>>) \o RRPairs(F, row, k + 1)
+SortByKeyRef(F) == RRPairs(F, 1, 1)
+RECURSIVE SortByKey(_)
+SortByKey(S) == IF S = {} THEN <<>> ELSE LET m == CHOOSE x \in S : \A y \in S : x[1] <= y[1] IN <<m[2]>> \o SortByKey(S \ {m})
+IdxOrderIsRoundRobin ==
+    LET F == FilterSets(call) K == Len(F) IN
+    SortByKey({ x \in { << (row - 1) * K + (k - 1), <<k, row>> >> : k \in 1..K, row \in 1..4 } : x[2][2] <= Len(F[x[2][1]]) })
+        = SortByKeyRef(F)
 WindowsInside == pc = "ret" => \A j \in DOMAIN exp.may : Lo(call, exp.may[j]) >= 0 /\ Hi(call, exp.may[j]) <= ChromLen(call, exp.may[j])
 WindowLength == pc = "ret" => \A j \in DOMAIN exp.may : Len(SeqOf(call, exp.may[j])) = call.inw + 2 * call.jit
 =============================================================================
